@@ -374,38 +374,44 @@ func vfStepName() string {
 func VerifHarness_C13_step() {
 	def := &definition{Name: "d"}
 	vfConsts = []string{""}
-	sd := &stepDef{Name: vfStepName()}
-	switch vfChoice("step.form", 3) {
-	case 0:
-		sd.Command = vfTree("cmd", 1)
-	case 1:
-		sd.Run = vfS("run")
-		sd.Params = vfS("run.params")
-	case 2:
-		sd.Command = vfTree("cmd", 1)
-		sd.Run = vfS("run")
-	}
-	if vfChoice("step.misc", 2) == 1 {
+	sd := &stepDef{Name: "a", Command: "true"}
+	def.Steps = []*stepDef{sd}
+	switch vfChoice("dim", 4) {
+	case 0: // what the step executes: command tree / sub-workflow / both; symbolic or fixed name
+		sd.Name = vfStepName()
+		sd.Command = nil
+		switch vfChoice("step.form", 3) {
+		case 0:
+			sd.Command = vfTree("cmd", 1)
+		case 1:
+			sd.Run = vfS("run")
+			sd.Params = vfS("run.params")
+		case 2:
+			sd.Command = vfTree("cmd", 1)
+			sd.Run = vfS("run")
+		}
+	case 1: // policies, signal, string fields
 		sd.ContinueOn = &continueOnDef{Failure: vfBool("cof"), Skipped: vfBool("cos")}
 		sd.RetryPolicy = &retryPolicyDef{Limit: vfInt("limit"), IntervalSec: vfInt("ivl")}
 		sd.RepeatPolicy = &repeatPolicyDef{Repeat: vfBool("rep"), IntervalSec: vfInt("rivl")}
 		sig := vfS("signal")
 		sd.SignalOnStop = &sig
 		sd.Script, sd.Stdout, sd.Stderr, sd.Output, sd.Dir = vfS("script"), vfS("stdout"), vfS("stderr"), vfS("output"), vfS("dir")
-	}
-	switch vfChoice("step.pre", 3) {
-	case 1:
-		sd.Preconditions = []*conditionDef{{Condition: vfS("spre.cond"), Expected: vfS("spre.exp")}}
-	case 2:
-		sd.Preconditions = []*conditionDef{nil}
-	}
-	switch vfChoice("steps.shape", 3) {
-	case 0:
-		def.Steps = []*stepDef{sd}
-	case 1:
-		def.Steps = []*stepDef{nil}
-	case 2:
-		def.Steps = []*stepDef{vfGoodStep("b"), sd}
+	case 2: // step preconditions (null items included)
+		if vfChoice("step.pre", 2) == 0 {
+			sd.Preconditions = []*conditionDef{{Condition: vfS("spre.cond"), Expected: vfS("spre.exp")}}
+		} else {
+			sd.Preconditions = []*conditionDef{nil}
+		}
+	case 3: // shape of the step list
+		switch vfChoice("steps.shape", 3) {
+		case 0:
+			def.Steps = []*stepDef{nil}
+		case 1:
+			def.Steps = []*stepDef{vfGoodStep("b"), sd, nil}
+		case 2:
+			def.Steps = []*stepDef{}
+		}
 	}
 	vfBuildAndCheck(def, vfChoice("opts", vfOptN))
 }
